@@ -420,7 +420,26 @@ func runC10(c *Ctx) {
 				r.Fail("R3", key, c.pos(call), "handshake metadata is created here but not stored with Conn.SetContext of the connection")
 				continue
 			}
-			// dominated by successful Parse
+			// dominated by successful Parse — in this function, or (when the storing was moved into an
+			// unexported helper with a single call site) in the function that calls it
+			f := f
+			var setAt ssa.Instruction = setc
+			for hop := 0; hop < 2; hop++ {
+				hasParse := false
+				for _, cj := range flow.CallInstrs(f) {
+					if flow.IsCallTo(cj, pkgSMParser, "CER", "Parse") || flow.IsCallTo(cj, pkgSMParser, "CEA", "Parse") {
+						hasParse = true
+					}
+				}
+				if hasParse {
+					break
+				}
+				cs := c.uniqueSite(f)
+				if cs == nil {
+					break
+				}
+				f, setAt = cs.Parent(), cs
+			}
 			var parse *ssa.Call
 			parsesCER := false
 			for _, cj := range flow.CallInstrs(f) {
@@ -438,12 +457,12 @@ func runC10(c *Ctx) {
 				r.Fail("R3", key, c.pos(call), "handshake metadata is created in a function that does not validate a CER/CEA with Parse")
 				continue
 			}
-			if !flow.Dominates(parse, setc) || errorEdgeBlocks(parse)[setc.Block()] || !errEdgeTested(parse) {
-				r.Fail("R3", key, c.pos(setc), "SetContext(NewContext(...)) is not confined to the nil-error edge of Parse: a rejected peer gets handshake metadata")
+			if !flow.Dominates(parse, setAt) || errorEdgeBlocks(parse)[setAt.Block()] || !errEdgeTested(parse) {
+				r.Fail("R3", key, c.pos(setAt), "SetContext(NewContext(...)) is not confined to the nil-error edge of Parse: a rejected peer gets handshake metadata")
 				continue
 			}
-			if p := pathFromErrEdge(f, parse, setc); p != nil {
-				r.Fail("R3", key, c.pos(setc), "SetContext(NewContext(...)) is reachable from the error edge of Parse", c.witness(p)...)
+			if p := pathFromErrEdge(f, parse, setAt); p != nil {
+				r.Fail("R3", key, c.pos(setAt), "SetContext(NewContext(...)) is reachable from the error edge of Parse", c.witness(p)...)
 				continue
 			}
 			if parsesCER {
@@ -466,17 +485,17 @@ func runC10(c *Ctx) {
 					r.Fail("R3", key, c.pos(call), "server side: no call of a function that writes the success CEA (Answer(2001) + WriteTo) in the CER handler")
 					continue
 				}
-				if !flow.Dominates(writer, setc) || !errEdgeTested(writer) {
-					r.Fail("R3", key, c.pos(setc), "metadata is stored before / regardless of the success CEA having been written")
+				if !flow.Dominates(writer, setAt) || !errEdgeTested(writer) {
+					r.Fail("R3", key, c.pos(setAt), "metadata is stored before / regardless of the success CEA having been written")
 					continue
 				}
-				if p := pathFromErrEdge(f, writer, setc); p != nil {
-					r.Fail("R3", key, c.pos(setc), "metadata is stored although writing the success CEA failed", c.witness(p)...)
+				if p := pathFromErrEdge(f, writer, setAt); p != nil {
+					r.Fail("R3", key, c.pos(setAt), "metadata is stored although writing the success CEA failed", c.witness(p)...)
 					continue
 				}
-				r.Ok("R3", key, c.pos(setc), "stored with SetContext only after CER.Parse succeeded and the success CEA was written without error")
+				r.Ok("R3", key, c.pos(setAt), "stored with SetContext only after CER.Parse succeeded and the success CEA was written without error")
 			} else {
-				r.Ok("R3", key, c.pos(setc), "stored with SetContext only on the nil-error edge of CEA.Parse")
+				r.Ok("R3", key, c.pos(setAt), "stored with SetContext only on the nil-error edge of CEA.Parse")
 			}
 		}
 	}
